@@ -614,6 +614,64 @@ Section Model.
 
 End Model.
 
+(* ------------------------------------------------------------------ mutation histories of the sequence containers
+   The cursor model walks a container AFTER a history of mutations; at the level of this model a
+   history only determines the element list (how Array.c / List.c / Tuple.c get there - memmove,
+   node links, realloc - is C04's model).  None = the operation raises and leaves the container as
+   it was (C12).  Index and value conventions as coded: push_at accepts 0..len for Array, 0..len-1
+   (and 0 on an empty List) for List, 0..len-1 for Tuple; resize upwards only reserves for Array,
+   appends zero Ints for List, raises for Tuple; rem removes the first equal element. *)
+Inductive skind := KArr | KList | KTup.
+Inductive hop :=
+| HPush (v : Z) | HPop | HPopAt (i : Z) | HRem (v : Z) | HPushAt (i v : Z)
+| HResize (n : Z) | HConcat (vs : list Z) | HSort.
+
+Fixpoint remove_first (v : Z) (l : list Z) : option (list Z) :=
+  match l with
+  | [] => None
+  | x :: r => if x =? v then Some r else option_map (cons x) (remove_first v r)
+  end.
+Fixpoint insert_sorted (v : Z) (l : list Z) : list Z :=
+  match l with [] => [v] | x :: r => if v <=? x then v :: l else x :: insert_sorted v r end.
+Definition sort_z (l : list Z) : list Z := fold_right insert_sorted [] l.
+
+Definition hist_step (k : skind) (xs : list Z) (o : hop) : option (list Z) :=
+  let n := zlen xs in
+  match o with
+  | HPush v => Some (xs ++ [v])
+  | HPop => if n =? 0 then None else Some (removelast xs)
+  | HPopAt i =>
+    if (0 <=? i) && (i <? n) then Some (firstn (Z.to_nat i) xs ++ skipn (S (Z.to_nat i)) xs) else None
+  | HRem v => remove_first v xs
+  | HPushAt i v =>
+    let ok := match k with
+              | KArr => (0 <=? i) && (i <=? n)
+              | KList => ((0 <=? i) && (i <? n)) || (i =? 0)
+              | KTup => (0 <=? i) && (i <? n)
+              end in
+    if ok then Some (firstn (Z.to_nat i) xs ++ v :: skipn (Z.to_nat i) xs) else None
+  | HResize m =>
+    if m <? 0 then None
+    else if m <? n then Some (firstn (Z.to_nat m) xs)
+    else match k with
+         | KArr => Some xs
+         | KList => Some (xs ++ repeat 0 (Z.to_nat (m - n)))
+         | KTup => None
+         end
+  | HConcat vs => Some (xs ++ vs)
+  | HSort => match k with KList => None | _ => Some (sort_z xs) end
+  end.
+
+(* the element list after the history, and the number of operations that raised *)
+Fixpoint hist_run (k : skind) (xs : list Z) (ops : list hop) (raised : nat) : list Z * nat :=
+  match ops with
+  | [] => (xs, raised)
+  | o :: r => match hist_step k xs o with
+              | Some xs' => hist_run k xs' r raised
+              | None => hist_run k xs r (S raised)
+              end
+  end.
+
 (* ------------------------------------------------------------------ the menu of the correspondence cases *)
 Fixpoint vkey (v : val) : Z :=
   match v with
